@@ -36,7 +36,20 @@ def oracle(tier, rng, deep=False):
     ev = nontriv = 0
     nrep = 1 if tier == "quick" and not deep else (3 if tier == "quick" else 6)   # quick + broken obligation: 3x the quick search
     for _ in range(nrep):
-        for spec in compos.menu(rng):
+        def structured(rng_, X_, y_, ykind_):
+            # half of the problems: balanced +-1 contrast columns (each column sums to zero), as effect-coded factors give
+            if rng_.random() < 0.5:
+                n_, p_ = X_.shape
+                X_ = X_.copy()
+                for j in range(p_):
+                    idx = list(range(n_)); rng_.shuffle(idx)
+                    X_[:, j] = 0.0
+                    X_[idx[: n_ // 2], j] = 1.0
+                    X_[idx[n_ // 2: 2 * (n_ // 2)], j] = -1.0
+                if p_ > 1:
+                    X_[:, 0] = X_[:, 0] * 2.0
+            return X_, y_
+        for spec in compos.menu(rng, structured):
             site = f"{spec['solver']}:{spec['datafit']}:{spec['penalty']}"
             inp = dict(spec)
             try:
